@@ -29,7 +29,7 @@ from pyvc.harness import Raised, Registry
 from pyvc.values import Sym
 
 from .c04 import _install
-from .pipeline import drive, make_pipeline
+from .pipeline import drive, make_pipeline, table_entries
 
 LEVEL = "proof"
 TECHNIQUE = ("contract-based deductive verification: end-to-end symbolic execution of the real SDK -> assembler -> executor -> network-stack path "
@@ -67,7 +67,7 @@ def _check_request(ctx, ex, sid, tp, number, time_unit, max_time, rot_l, rot_r, 
     ctx.check("type", r.type is tp)
     ctx.check("number", ctx.eq(r.number, number))
     if ctx.truth(ctx.not_(ctx.eq(max_time, 0))):
-        ctx.check("time-unit", ctx.eq(r.time_unit, time_unit.value))
+        ctx.check("time-unit", ctx.eq(r.time_unit, ctx.getattr(time_unit, "value")))
         ctx.check("max-time", ctx.eq(r.max_time, max_time))
     else:
         ctx.check("max-time", ctx.eq(r.max_time, 0))
@@ -75,9 +75,13 @@ def _check_request(ctx, ex, sid, tp, number, time_unit, max_time, rot_l, rot_r, 
     ctx.check("rotations-remote", ctx.and_(ctx.eq(r.rotation_X_remote1, rot_r[0]), ctx.eq(r.rotation_Y_remote, rot_r[1]), ctx.eq(r.rotation_X_remote2, rot_r[2])))
     want_l = rb_l if rb_l is not None else RandomBasis.NONE
     want_r = rb_r if rb_r is not None else RandomBasis.NONE
-    ctx.check("random-basis-local-is-the-enum-member", r.random_basis_local is want_l)
-    ctx.check("random-basis-remote-is-the-enum-member", r.random_basis_remote is want_r)
+    ctx.check("random-basis-local-is-the-enum-member", _same_member(ctx, r.random_basis_local, want_l))
+    ctx.check("random-basis-remote-is-the-enum-member", _same_member(ctx, r.random_basis_remote, want_r))
     # the link-layer interface accepts it
+    if tp is RequestType.R:
+        _qlink_stubs(ctx)
+        out = ctx.attempt(QC.request_to_qlink_1_0, r)
+        ctx.check("link-layer-interface-accepts-the-request[type R]", out[0] == "ret")
     if tp is not RequestType.R:
         stub = _qlink_stubs(ctx)
         out = ctx.attempt(QC.request_to_qlink_1_0, r)
@@ -90,7 +94,20 @@ def _check_request(ctx, ex, sid, tp, number, time_unit, max_time, rot_l, rot_r, 
                 ctx.check("link-layer-request-carries-rotations-and-bases",
                           ctx.and_(ctx.eq(q.x_rotation_angle_local_1, rot_l[0]), ctx.eq(q.y_rotation_angle_local, rot_l[1]), ctx.eq(q.x_rotation_angle_local_2, rot_l[2]),
                                    ctx.eq(q.x_rotation_angle_remote_1, rot_r[0]), ctx.eq(q.y_rotation_angle_remote, rot_r[1]), ctx.eq(q.x_rotation_angle_remote_2, rot_r[2]),
-                                   q.random_basis_local.value == want_l.value, q.random_basis_remote.value == want_r.value))
+                                   ctx.eq(ctx.getattr(q.random_basis_local, "value"), ctx.getattr(want_l, "value")),
+                                   ctx.eq(ctx.getattr(q.random_basis_remote, "value"), ctx.getattr(want_r, "value"))))
+
+
+def _same_member(ctx, got, want):
+    """``got`` is a member of want's enum class and the same member"""
+    from pyvc.values import SEnum
+    import enum as _enum
+    cls = want.cls if isinstance(want, SEnum) else type(want)
+    if isinstance(got, SEnum):
+        return got.cls is cls and ctx.eq(got, want)
+    if isinstance(got, _enum.Enum):
+        return isinstance(got, cls) and ctx.eq(got, want)
+    return False
 
 
 class _Rec:
@@ -105,7 +122,7 @@ def _qlink_stubs(ctx):
     if not ctx.symbolic:
         return None
     import qlink_interface as q
-    for cls in (q.ReqCreateAndKeep, q.ReqMeasureDirectly, q.ReqReceive):
+    for cls in (q.ReqCreateAndKeep, q.ReqMeasureDirectly, q.ReqReceive, q.ReqRemoteStatePrep):
         ctx.it.stubs[cls] = (lambda it_, a, k: _Rec(**k))
     return True
 
@@ -125,7 +142,7 @@ def build():
     # ------------------------------------------------------------------ requests
     def create_keep(ctx):
         n = ctx.choice("number", [1, 2, 3])
-        tu = ctx.choice("time_unit", list(TimeUnit))
+        tu = ctx.enum("time_unit", TimeUnit)
         mt = ctx.int("max_time", 0, 10 ** 6)
         conn, ex, epr, subs, sid = _mk(ctx)
         ctx.call(epr.create_keep, number=n, time_unit=tu, max_time=mt)
@@ -137,12 +154,12 @@ def build():
 
     def create_measure(ctx):
         n = ctx.choice("number", [1, 2])
-        tu = ctx.choice("time_unit", list(TimeUnit))
+        tu = ctx.enum("time_unit", TimeUnit)
         mt = ctx.int("max_time", 0, 10 ** 6)
         rl = tuple(ctx.int(f"rot_local{k}", 0, 31) for k in range(3))
         rr = tuple(ctx.int(f"rot_remote{k}", 0, 31) for k in range(3))
-        rbl = ctx.choice("random_basis_local", [None] + list(RandomBasis))
-        rbr = ctx.choice("random_basis_remote", [None] + list(RandomBasis))
+        rbl = ctx.enum("random_basis_local", RandomBasis) if ctx.choice("has_rb_local", [False, True]) else None
+        rbr = ctx.enum("random_basis_remote", RandomBasis) if ctx.choice("has_rb_remote", [False, True]) else None
         conn, ex, epr, subs, sid = _mk(ctx)
         ctx.call(epr.create_measure, number=n, time_unit=tu, max_time=mt, rotations_local=rl, rotations_remote=rr,
                  random_basis_local=rbl, random_basis_remote=rbr)
@@ -163,9 +180,9 @@ def build():
 
     def create_rsp(ctx):
         rl = tuple(ctx.int(f"rot_local{k}", 0, 31) for k in range(3))
-        rbl = ctx.choice("random_basis_local", [None] + list(RandomBasis))
+        rbl = ctx.enum("random_basis_local", RandomBasis) if ctx.choice("has_rb_local", [False, True]) else None
         mt = ctx.int("max_time", 0, 10 ** 6)
-        tu = ctx.choice("time_unit", list(TimeUnit))
+        tu = ctx.enum("time_unit", TimeUnit)
         conn, ex, epr, subs, sid = _mk(ctx)
         ctx.call(epr.create_rsp, number=1, time_unit=tu, max_time=mt, rotations_local=rl, random_basis_local=rbl)
         _flush(ctx, conn)
@@ -181,13 +198,12 @@ def build():
             _flush(ctx, conn)
             drive(ctx, ex, subs[0])
             ctx.check("nothing-sent-to-the-network-stack-by-a-receive", len(ex.network_stack.requests) == 0)
-            tab = ex._epr_recv_requests
-            keys = [k for k, l in tab.items() if len(l)]
-            ctx.check("receive-registered-for-(remote node, socket)", len(keys) == 1 and ctx.truth(ctx.and_(ctx.eq(keys[0][0], REMOTE_ID), ctx.eq(keys[0][1], sid))))
-            if len(keys) == 1:
-                d = tab[keys[0]][0]
+            ents = [(k, l) for k, l in table_entries(ex._epr_recv_requests) if len(l)]
+            ctx.check("receive-registered-for-(remote node, socket)", len(ents) == 1 and ctx.truth(ctx.and_(ctx.eq(ents[0][0][0], REMOTE_ID), ctx.eq(ents[0][0][1], sid))))
+            if len(ents) == 1:
+                d = ents[0][1][0]
                 ctx.check("number-of-pairs", ctx.eq(d.tot_pairs, n))
-            ctx.check("no-create-registered", all(len(l) == 0 for l in ex._epr_create_requests.values()))
+            ctx.check("no-create-registered", all(len(l) == 0 for k, l in table_entries(ex._epr_create_requests)))
         return f
     for kind in ("recv_keep", "recv_measure", "recv_rsp"):
         R.add(f"request[{kind}]", kind="lia", samples=30, max_paths=400)(mk_recv(kind))
@@ -197,13 +213,13 @@ def build():
         return LinkLayerOKTypeK(type=ReturnType.OK_K, create_id=ctx.int(f"r{i}_create_id", 0, 1000), logical_qubit_id=100 + i,
                                 directionality_flag=0 if creator else 1, sequence_number=ctx.int(f"r{i}_seq", 0, 1000), purpose_id=sid, remote_node_id=REMOTE_ID,
                                 goodness=ctx.int(f"r{i}_goodness", 0, 1000), goodness_time=ctx.int(f"r{i}_goodness_time", 0, 1000),
-                                bell_state=ctx.choice(f"r{i}_bell", list(BellState)))
+                                bell_state=ctx.enum(f"r{i}_bell", BellState))
 
     def _resp_m(ctx, i, sid, creator):
         return LinkLayerOKTypeM(type=ReturnType.OK_M, create_id=ctx.int(f"r{i}_create_id", 0, 1000), measurement_outcome=ctx.int(f"r{i}_outcome", 0, 1),
-                                measurement_basis=ctx.choice(f"r{i}_basis", list(QC.Basis)), directionality_flag=0 if creator else 1,
+                                measurement_basis=ctx.enum(f"r{i}_basis", QC.Basis), directionality_flag=0 if creator else 1,
                                 sequence_number=ctx.int(f"r{i}_seq", 0, 1000), purpose_id=sid, remote_node_id=REMOTE_ID,
-                                goodness=ctx.int(f"r{i}_goodness", 0, 1000), bell_state=ctx.choice(f"r{i}_bell", list(BellState)))
+                                goodness=ctx.int(f"r{i}_goodness", 0, 1000), bell_state=ctx.enum(f"r{i}_bell", BellState))
 
     def mk_keep_results(role):
         def f(ctx):
@@ -227,7 +243,10 @@ def build():
                 ok = True
                 for fname in LinkLayerOKTypeK._fields:
                     want = getattr(resps[i], fname)
-                    want = want.value if hasattr(want, "value") and not isinstance(want, Sym) else want
+                    import enum as _enum
+                    from pyvc.values import SEnum
+                    if isinstance(want, (SEnum, _enum.Enum)):
+                        want = ctx.getattr(want, "value")
                     got = ctx.getattr(getattr(info, fname), "value")
                     ok = ctx.and_(ok, ctx.eq(got, want))
                 ctx.check(f"qubit[{i}].entanglement_info reads pair {i}'s response (all fields)", ok)
@@ -235,7 +254,7 @@ def build():
                 ctx.check(f"result[{i}].qubit_id", ctx.eq(ctx.getattr(res.qubit_id, "value"), resps[i].logical_qubit_id))
                 ctx.check(f"result[{i}].remote_node_id", ctx.eq(ctx.getattr(res.remote_node_id, "value"), REMOTE_ID))
                 ctx.check(f"result[{i}].generation_duration (pinned: goodness)", ctx.eq(ctx.getattr(res.generation_duration, "value"), resps[i].goodness))
-                ctx.check(f"result[{i}].bell_state", ctx.getattr(res, "bell_state") is resps[i].bell_state)
+                ctx.check(f"result[{i}].bell_state", _same_member(ctx, ctx.getattr(res, "bell_state"), resps[i].bell_state))
         return f
     R.add("results[create_keep_with_info]", kind="lia", samples=30, max_paths=4000)(mk_keep_results("create"))
     R.add("results[recv_keep_with_info]", kind="lia", samples=30, max_paths=4000)(mk_keep_results("recv"))
@@ -263,7 +282,7 @@ def build():
                 ctx.check(f"result[{i}].measurement_outcome (no post-processing requested)", ctx.eq(ctx.getattr(res, "measurement_outcome"), resps[i].measurement_outcome))
                 ctx.check(f"result[{i}].remote_node_id", ctx.eq(ctx.getattr(res.remote_node_id, "value"), REMOTE_ID))
                 ctx.check(f"result[{i}].generation_duration (pinned: goodness)", ctx.eq(ctx.getattr(res.generation_duration, "value"), resps[i].goodness))
-                ctx.check(f"result[{i}].bell_state", ctx.getattr(res, "bell_state") is resps[i].bell_state)
+                ctx.check(f"result[{i}].bell_state", _same_member(ctx, ctx.getattr(res, "bell_state"), resps[i].bell_state))
         return f
     R.add("results[create_measure]", kind="lia", samples=30, max_paths=8000)(mk_measure_results("create"))
     R.add("results[recv_measure]", kind="lia", samples=30, max_paths=8000)(mk_measure_results("recv"))
